@@ -89,7 +89,17 @@ def probe(dotted, slot, value, via):
         return raises_value_error(lambda: cls(**{slot: value}))
     obj = cls(**base_args(dotted))
     setattr(obj, slot, value)
-    return raises_value_error(lambda: frame.marshal(obj, 1))
+    # the verdict must not change when the same object is encoded again (a failed
+    # attempt must not leave the object 'approved'), nor between the entry points
+    verdicts = [raises_value_error(lambda: frame.marshal(obj, 1)),
+                raises_value_error(lambda: frame.marshal(obj, 1)),
+                raises_value_error(obj.marshal),
+                raises_value_error(lambda: frame.marshal(obj, 2))]
+    if len(set(verdicts)) != 1:
+        raise Violation('retry-differs:%s' % kind_of(dotted, slot),
+                        '%s.%s=%s: ValueError raised per encode attempt = %r' %
+                        (dotted, slot, canon.short(value, 80), verdicts))
+    return verdicts[0]
 
 
 def judge(dotted, slot, value, via, ok, what):
@@ -151,7 +161,10 @@ def codepoint_bulk(tier, shard, nshards, rec):
     if tier == 'thorough':
         for dotted, slot, kind, limit, cls in ctors:
             posts.append((dotted, slot, kind, cls(**base_args(dotted))))
+    from pbt.runner import set_logging
     for cp in range(lo, hi):
+        if cp % 4096 == 0:
+            set_logging(cp % 8192 == 0)
         ch = chr(cp)
         in_alpha = ch in ALPHA
         variants = (ch + 'ab', 'a' + ch + 'b', 'ab' + ch)
